@@ -2,10 +2,12 @@
   UnytModel.Ref.C17Factor — hand-written reference data for the factor-kind extension of C17.
 
   The region where unyt violates the dtype statement when the conversion has a truthy offset
-  (temperatures, lat/lon) whose Python type is a NumPy scalar: `in_base` subtracts the offset with
-  `ret = ret - offset`, NumPy promotes narrow data with the strong scalar (degC data of dtype
-  float32 `.in_base("planck")` is float64, `convert_to_base("planck")` is float32).  One-to-one
-  with the `known` findings `dtype|in_base|…|offset`.
+  (temperatures, lat/lon).  EMPTY since fix C17-05: until then `in_base` subtracted the offset with
+  `ret = ret - offset`, and NumPy promoted narrow data with a strong (`np.float64`) offset — degC data
+  of dtype float32 `.in_base("planck")` came back float64 while `convert_to_base("planck")` kept
+  float32 (keys `dtype|in_base|…|offset=npfloat8`, `agree|copy-inplace|…|offset=npfloat8`, now
+  `status: fixed`).  The guard is kept as a definition (constantly `false`) so that the statements
+  of `UnytProofs/C17Offset.lean` keep their shape.
 -/
 import UnytModel.DtypeFactor
 import UnytModel.Ref.C17
@@ -13,11 +15,8 @@ import UnytModel.Ref.C17
 namespace Unyt.Ref.C17
 open Unyt
 
-/-- `in_base` with an offset that is a NumPy scalar wider than the data's required components -/
-def knownOffsetExcluded (r : Route) (fk : FactorKind) (d : Dtype) : Bool :=
-  r == .inBase &&
-    match fk with
-    | .npfloat s => decide ((expectedDtype d).compSize < s)
-    | .pyfloat => false
+/-- no cell is excluded: with `np.subtract(ret, offset, ret)` in `in_base` (fix C17-05) every
+    same-dimension route keeps the required dtype whatever the Python type of the offset -/
+def knownOffsetExcluded (_r : Route) (_fk : FactorKind) (_d : Dtype) : Bool := false
 
 end Unyt.Ref.C17
